@@ -495,6 +495,7 @@ type HarnessSpec struct {
 	OneShotSec   int
 	NeedReach    []string // labels that some path must reach (vacuity guard)
 	Params       map[string]int // harness package variables set before the run (bounds)
+	OpaqueFmt    bool     // fmt.Sprintf returns a placeholder (harness does not inspect formatted text)
 	ConcAlloc    bool     // case-split allocation sizes up to (symbolic input bytes + 64)
 }
 
@@ -524,6 +525,7 @@ type HarnessRun struct {
 	Unsupp    map[string]int
 	Msgs      map[string]int
 	nWitness  int
+	WitnessOK int
 }
 
 func (hs *HarnessRun) wantWitness(r *PathResult) bool {
